@@ -171,30 +171,50 @@ func main() {
 	}
 	allSeen := core.NewSeen()
 	runs := map[string]interface{}{}
-	for si, sp := range pl.Seeds {
-		if *only != "" && !strings.Contains(","+*only+",", ","+sp.Name+",") {
-			continue
+	minDepth := 0
+	// pass 0 explores every seed to depth 2 only, so that a violation is first met (and therefore
+	// reported) with its shortest history; pass 1 is the run proper
+	for pass := 0; pass < 2; pass++ {
+		for si, sp := range pl.Seeds {
+			if *only != "" && !strings.Contains(","+*only+",", ","+sp.Name+",") {
+				continue
+			}
+			if *depth > 0 {
+				sp.Depth = *depth
+			}
+			if pass == 0 {
+				if sp.Depth <= 2 {
+					continue
+				}
+				sp.Depth = 2
+			}
+			ctx, l, err := buildSeed(w, sp.Name)
+			if err != nil {
+				// on the unchanged tree every seed builds; under a mutant a seed may already break the property
+				r.AddViolation(core.Violation{Property: f.Prop, Assertion: "seed.builds-cleanly", Signature: sp.Name, Detail: err.Error(),
+					Replay: replayCfg{Config: cfg, Seed: sp.Name}})
+				continue
+			}
+			ex := core.NewExplorer(sc, f, r)
+			before := r.Transitions
+			ex.Run(sp.Name, ctx, l, sp.Depth)
+			if pass == 0 {
+				continue
+			}
+			if minDepth == 0 || sp.Depth < minDepth {
+				minDepth = sp.Depth
+			}
+			runs[fmt.Sprintf("%s/depth%d", sp.Name, sp.Depth)] = map[string]interface{}{"seed_ops": fmt.Sprint(seedOps(sp.Name, cfg)), "seed_state": describe(l), "transitions_this_shard": r.Transitions - before}
+			for k := range ex.Seen {
+				var h [32]byte
+				copy(h[:], k[:])
+				h[31] ^= byte(si + 1)
+				allSeen.Add(h)
+			}
 		}
-		if *depth > 0 {
-			sp.Depth = *depth
-		}
-		ctx, l, err := buildSeed(w, sp.Name)
-		if err != nil {
-			// on the unchanged tree every seed builds; under a mutant a seed may already break the property
-			r.AddViolation(core.Violation{Property: f.Prop, Assertion: "seed.builds-cleanly", Signature: sp.Name, Detail: err.Error(),
-				Replay: replayCfg{Config: cfg, Seed: sp.Name}})
-			continue
-		}
-		ex := core.NewExplorer(sc, f, r)
-		before := r.Transitions
-		ex.Run(sp.Name, ctx, l, sp.Depth)
-		runs[fmt.Sprintf("%s/depth%d", sp.Name, sp.Depth)] = map[string]interface{}{"seed_ops": fmt.Sprint(seedOps(sp.Name, cfg)), "seed_state": describe(l), "transitions_this_shard": r.Transitions - before}
-		for k := range ex.Seen {
-			var h [32]byte
-			copy(h[:], k[:])
-			h[31] ^= byte(si + 1)
-			allSeen.Add(h)
-		}
+	}
+	if r.Exhaustive {
+		r.DepthCompleted = minDepth
 	}
 	allSeen.Dump(f.HashOut)
 	bz, _ := json.Marshal(pl.Alpha)
